@@ -313,17 +313,45 @@ impl Obj {
     }
 }
 
-pub fn erase_program(seed: u64, scn: &Value) -> Value {
-    let prog = jarr(scn, "prog");
-    let mut slots: Vec<Option<(Obj, Vec<u8>, usize)>> = (0..8).map(|_| None).collect(); // (object, expected bytes, watch slot)
+struct Live {
+    obj: Obj,
+    expect: Vec<u8>,
+    watch: usize, // watch id of the block that holds the bytes (shared by objects that share the block)
+}
+
+#[derive(Default)]
+struct EraseCounts {
+    released_zero: u64,
+    released_dirty: u64,
+    not_released: u64,
+    live_changed: u64,
+    leaked_blocks: u64,
+    released_while_held: u64,
+}
+
+/// after the holder(s) of watch id `w` were dropped: the block must have been released, all zero - unless another live
+/// object still holds the same block (shared storage), in which case it must NOT have been released
+fn judge(c: &mut EraseCounts, w: usize, still_held: bool) {
+    let res = alloc::watch_result(w).0;
+    if still_held {
+        if res != 0 {
+            c.released_while_held += 1;
+        }
+        return;
+    }
+    match res {
+        1 => c.released_zero += 1,
+        2 => c.released_dirty += 1,
+        _ => c.not_released += 1,
+    }
+    alloc::unwatch(w);
+}
+
+fn erase_once(rng: &mut Rng, prog: &[Value], c: &mut EraseCounts) {
+    let mut slots: Vec<Option<Live>> = (0..8).map(|_| None).collect();
     let mut watch_next = 0usize;
-    let mut released_dirty = 0u64;
-    let mut released_zero = 0u64;
-    let mut not_released = 0u64;
-    let mut live_changed = 0u64;
-    let mut leaked_blocks = 0u64;   // released blocks (other than the watched ones) that still held a secret
     alloc::watch_clear_all();
-    let mut rng = Rng::derive(seed, &format!("erase{}", scn.get("id").map(|x| x.to_string()).unwrap_or_default()));
+    let held = |slots: &Vec<Option<Live>>, w: usize| slots.iter().flatten().any(|l| l.watch == w);
     for st in prog {
         let op = jstr(st, "op");
         let i = ju64(st, "slot") as usize;
@@ -350,61 +378,102 @@ pub fn erase_program(seed: u64, scn: &Value) -> Value {
                 alloc::capture_stop();
                 let expect = obj.bytes().to_vec();
                 // anything released while the object was being built must not contain its secret
-                leaked_blocks += alloc::captured_containing(&expect) as u64;
+                c.leaked_blocks += alloc::captured_containing(&expect) as u64;
                 alloc::watch(watch_next, obj.bytes().as_ptr(), 32);
-                slots[i] = Some((obj, expect, watch_next));
+                slots[i] = Some(Live { obj, expect, watch: watch_next });
                 watch_next += 1;
             }
             "clone" => {
                 let src = ju64(st, "src") as usize;
-                let (o, e, _) = slots[src].as_ref().expect("clone of empty slot");
+                let l = slots[src].as_ref().expect("clone of empty slot");
                 alloc::capture_start();
-                let c = match o {
+                let cl = match &l.obj {
                     Obj::Priv(k) => Obj::Priv(k.clone()),
                     Obj::Pay(k) => Obj::Pay(k.clone()),
                 };
                 alloc::capture_stop();
-                leaked_blocks += alloc::captured_containing(e) as u64;
-                alloc::watch(watch_next, c.bytes().as_ptr(), 32);
-                slots[i] = Some((c, e.clone(), watch_next));
-                watch_next += 1;
+                c.leaked_blocks += alloc::captured_containing(&l.expect) as u64;
+                let expect = l.expect.clone();
+                // a clone may own a block of its own or share the block of its source
+                let shared = slots.iter().flatten().find(|x| x.obj.bytes().as_ptr() == cl.bytes().as_ptr()).map(|x| x.watch);
+                let w = match shared {
+                    Some(w) => w,
+                    None => {
+                        alloc::watch(watch_next, cl.bytes().as_ptr(), 32);
+                        watch_next += 1;
+                        watch_next - 1
+                    }
+                };
+                slots[i] = Some(Live { obj: cl, expect, watch: w });
             }
             "drop" => {
-                let (o, e, w) = slots[i].take().expect("drop of empty slot");
+                let l = slots[i].take().expect("drop of empty slot");
+                let (o, e, w) = (l.obj, l.expect, l.watch);
                 alloc::capture_start();
                 drop(o);
                 alloc::capture_stop();
-                leaked_blocks += alloc::captured_containing(&e) as u64;
-                match alloc::watch_result(w).0 {
-                    1 => released_zero += 1,
-                    2 => released_dirty += 1,
-                    _ => not_released += 1,
+                c.leaked_blocks += alloc::captured_containing(&e) as u64;
+                let h = held(&slots, w);
+                judge(c, w, h);
+            }
+            "drop2" => {
+                // two handles dropped by two threads at the same moment
+                let j = ju64(st, "src") as usize;
+                let a = slots[i].take().expect("drop2 of empty slot");
+                let b = slots[j].take().expect("drop2 of empty slot");
+                let (wa, wb) = (a.watch, b.watch);
+                let bar = std::sync::Arc::new(std::sync::Barrier::new(2));
+                let (oa, ob) = (a.obj, b.obj);
+                let b1 = bar.clone();
+                let t1 = std::thread::spawn(move || {
+                    b1.wait();
+                    drop(oa);
+                });
+                let b2 = bar.clone();
+                let t2 = std::thread::spawn(move || {
+                    b2.wait();
+                    drop(ob);
+                });
+                t1.join().expect("thread");
+                t2.join().expect("thread");
+                let h = held(&slots, wa);
+                judge(c, wa, h);
+                if wb != wa {
+                    let h = held(&slots, wb);
+                    judge(c, wb, h);
                 }
-                alloc::unwatch(w);
             }
             x => panic!("erase op {}", x),
         }
         // live objects keep their bytes
         for s in slots.iter().flatten() {
-            if s.0.bytes() != &s.1[..] {
-                live_changed += 1;
+            if s.obj.bytes() != &s.expect[..] {
+                c.live_changed += 1;
             }
         }
     }
     // drop what is left, in slot order
-    for s in slots.iter_mut() {
-        if let Some((o, _e, w)) = s.take() {
-            drop(o);
-            match alloc::watch_result(w).0 {
-                1 => released_zero += 1,
-                2 => released_dirty += 1,
-                _ => not_released += 1,
-            }
-            alloc::unwatch(w);
+    for k in 0..slots.len() {
+        if let Some(l) = slots[k].take() {
+            let w = l.watch;
+            drop(l.obj);
+            let h = held(&slots, w);
+            judge(c, w, h);
         }
     }
-    json!({"ev":"erase","id":scn.get("id").cloned().unwrap_or(json!("")),"steps":prog.len(),"released_zero":released_zero,
-           "released_dirty":released_dirty,"not_released":not_released,"live_changed":live_changed,"leaked_blocks":leaked_blocks})
+}
+
+pub fn erase_program(seed: u64, scn: &Value) -> Value {
+    let prog = jarr(scn, "prog");
+    let repeat = ju64_or(scn, "repeat", 1);
+    let mut c = EraseCounts::default();
+    let mut rng = Rng::derive(seed, &format!("erase{}", scn.get("id").map(|x| x.to_string()).unwrap_or_default()));
+    for _ in 0..repeat {
+        erase_once(&mut rng, prog, &mut c);
+    }
+    json!({"ev":"erase","id":scn.get("id").cloned().unwrap_or(json!("")),"steps":prog.len(),"repeat":repeat,"released_zero":c.released_zero,
+           "released_dirty":c.released_dirty,"not_released":c.not_released,"live_changed":c.live_changed,"leaked_blocks":c.leaked_blocks,
+           "released_while_held":c.released_while_held})
 }
 
 pub fn run_file(_t: &Templates, seed: u64, inp: &str, outp: &str) {
